@@ -468,6 +468,21 @@ def growth_twins(ck, seed, n_rounds):
         class Item:
             def __init__(self):
                 self.a = vsc.rand_uint8_t()
+                self.boom_pre = False
+                self.boom_post = False
+                self.calls = [0, 0]
+
+            def pre_randomize(self):
+                self.calls[0] += 1
+                if self.boom_pre:
+                    self.boom_pre = False
+                    raise common.FaultInjected("element pre_randomize")
+
+            def post_randomize(self):
+                self.calls[1] += 1
+                if self.boom_post:
+                    self.boom_post = False
+                    raise common.FaultInjected("element post_randomize")
 
         @vsc.randobj
         class Pkt:
@@ -523,6 +538,14 @@ def growth_twins(ck, seed, n_rounds):
         p.boom = True
         p.randomize()
 
+    def fault_elem_pre(p):
+        p.objs[1].boom_pre = True
+        p.randomize()
+
+    def fault_elem_post(p):
+        p.items[0].boom_post = True
+        p.randomize()
+
     def call_dyn(p):
         with p.randomize_with() as it:
             it.small()
@@ -530,7 +553,8 @@ def growth_twins(ck, seed, n_rounds):
     def call_plain(p):
         p.randomize()
     firsts = [("unsat-plain", fault_unsat_plain, True), ("unsat-with", fault_unsat_with, True), ("exception-in-analysis", fault_analysis, True),
-              ("pre_randomize-raises", fault_pre, True), ("dynamic-foreach-inline", call_dyn, False), ("plain-success", call_plain, False)]
+              ("pre_randomize-raises", fault_pre, True), ("element-pre_randomize-raises", fault_elem_pre, True),
+              ("element-post_randomize-raises", fault_elem_post, True), ("dynamic-foreach-inline", call_dyn, False), ("plain-success", call_plain, False)]
 
     def history(Item, Pkt, first, seeds):
         p = Pkt()
@@ -551,6 +575,8 @@ def growth_twins(ck, seed, n_rounds):
         out = []
         for k, sd in enumerate(seeds[1:]):
             p.set_randstate(RandState.mkFromSeed(sd))
+            for e in list(p.items) + list(p.objs):
+                e.calls = [0, 0]
             try:
                 with common.quiet():
                     if k % 3 == 2:
@@ -559,7 +585,7 @@ def growth_twins(ck, seed, n_rounds):
                     else:
                         p.randomize()
                 out.append(["ok", len(p.items), [int(e.a) for e in p.items], [int(e.a) for e in p.objs], [int(v) for v in p.l], int(p.x),
-                            k % 3 == 2])
+                            k % 3 == 2, [list(e.calls) for e in p.objs], [list(e.calls) for e in p.items]])
             except Exception as e:
                 out.append(["raised", type(e).__name__])
         return out
